@@ -56,6 +56,18 @@ Theorem C18_fifo : forall q n, reads q n = (firstn n q, skipn n q).
 Proof. exact reads_fifo. Qed.
 Print Assumptions C18_fifo.
 
+
+(* "connect followed by disconnect completes without raising", and the client is then as
+   new: a later connect behaves like the first one, at every fault position *)
+Theorem C18_connect_disconnect :
+  forall pre faults,
+    let s1 := fst (mqtt_connect pre false [] mc_init) in
+    let s2 := fst (mqtt_disconnect s1) in
+    snd (mqtt_disconnect s1) = ConnOk /\ s2 = mc_init
+    /\ mqtt_connect pre false faults s2 = mqtt_connect pre false faults mc_init.
+Proof. exact connect_disconnect_connect. Qed.
+Print Assumptions C18_connect_disconnect.
+
 (* never silently deaf: every broker message yields one entry (an undecodable payload a
    read error, and later messages are still delivered); a broker error surfaces as a
    transport error after everything that arrived before it *)
